@@ -217,6 +217,10 @@ def fork_run(fn, arg, timeout=60.0):
         os.unlink(_cov)
     except OSError:
         pass
+    _cwd = '/tmp/verif-cwd-%d' % pid
+    if os.path.isdir(_cwd):
+        import shutil
+        shutil.rmtree(_cwd, ignore_errors=True)
     data = b''.join(chunks)
     if not data:
         raise ChildFailure('died', 'child exited with status %r and no result' % (st,))
